@@ -338,7 +338,10 @@ def eval_cases(tag, header, terms, shard=250, timeout=900):
     # keep only failing shards' sources for inspection; remove compiled junk
     for f in os.listdir(cdir):
         if not f.endswith(".v"):
-            os.remove(os.path.join(cdir, f))
+            try:
+                os.remove(os.path.join(cdir, f))
+            except OSError:
+                pass          # another run of the same check cleaned up at the same time
     return sorted(failing), errors
 
 
